@@ -629,6 +629,40 @@ pub fn plan(def: &OpDef, rng: &mut Rng, dt: &DataType, vals: &[Val]) -> Option<P
                 Ok(vec![Out::Arr(full), Out::Side(second)])
             })
         }
+        "builder.append_array" => {
+            // values appended one by one (leaving an in-progress block / partial state), then the
+            // rest of the column appended as a whole ARRAY in its physical layout, then finish
+            if !matches!(dt, Utf8View | BinaryView | Utf8 | LargeUtf8 | Binary | LargeBinary | Boolean | Int32 | Int64 | Float64) {
+                return None;
+            }
+            let half = *rng.pick(&[0usize, 1, n / 2, n.saturating_sub(1)]).min(&n);
+            p(format!("head {half}"), "-", vec![], vec![], move |x, _a, _c| {
+                use arrow_array::builder::*;
+                use arrow_array::cast::AsArray;
+                use arrow_array::types::*;
+                let mut b = mk_builder(&dtc, 4).map_err(unsupported)?;
+                for v in &valsc[..half] {
+                    append_val(&mut *b, &dtc, true, v).map_err(unsupported)?;
+                }
+                let tail = x.slice(half, x.len() - half);
+                let any = b.as_any_mut();
+                match &dtc {
+                    Utf8View => any.downcast_mut::<StringViewBuilder>().ok_or_else(|| unsupported("builder type".to_string()))?.append_array(tail.as_string_view()),
+                    BinaryView => any.downcast_mut::<BinaryViewBuilder>().ok_or_else(|| unsupported("builder type".to_string()))?.append_array(tail.as_binary_view()),
+                    Utf8 => any.downcast_mut::<StringBuilder>().ok_or_else(|| unsupported("builder type".to_string()))?.append_array(tail.as_string::<i32>())?,
+                    LargeUtf8 => any.downcast_mut::<LargeStringBuilder>().ok_or_else(|| unsupported("builder type".to_string()))?.append_array(tail.as_string::<i64>())?,
+                    Binary => any.downcast_mut::<BinaryBuilder>().ok_or_else(|| unsupported("builder type".to_string()))?.append_array(tail.as_binary::<i32>())?,
+                    LargeBinary => any.downcast_mut::<LargeBinaryBuilder>().ok_or_else(|| unsupported("builder type".to_string()))?.append_array(tail.as_binary::<i64>())?,
+                    Boolean => any.downcast_mut::<BooleanBuilder>().ok_or_else(|| unsupported("builder type".to_string()))?.append_array(tail.as_boolean()),
+                    Int32 => any.downcast_mut::<Int32Builder>().ok_or_else(|| unsupported("builder type".to_string()))?.append_array(tail.as_primitive::<Int32Type>()),
+                    Int64 => any.downcast_mut::<Int64Builder>().ok_or_else(|| unsupported("builder type".to_string()))?.append_array(tail.as_primitive::<Int64Type>()),
+                    _ => any.downcast_mut::<Float64Builder>().ok_or_else(|| unsupported("builder type".to_string()))?.append_array(tail.as_primitive::<Float64Type>()),
+                }
+                let cl = b.finish_cloned();
+                let full = b.finish();
+                Ok(vec![Out::Arr(cl), Out::Arr(full)])
+            })
+        }
         "builder.finish_cloned" | "builder.finish_preserve_values" => {
             if !builder_supported(dt) {
                 return None;
